@@ -186,6 +186,8 @@ def classify_exc(exc, case, res):
         return "yaml_bigint_crash"
     if typ == "ValueError" and site == "parser/properties/schemas.py:parse_reference_path":
         return "ref_urlparse_crash"
+    if typ == "OSError" and site in ("__init__.py:_build_api", "__init__.py:_build_models") and exc[3].startswith("[Errno 36]"):
+        return "name_too_long_oserror"
     return None
 
 
@@ -449,7 +451,9 @@ def run_cli(doc_bytes, suffix, fow, mode, overwrite, limit=LIMIT):
             cmd.append("--fail-on-warning")
         if overwrite:
             cmd.append("--overwrite")
-        env = {**os.environ, "PYTHONPATH": str(REPO), "PYTHONHASHSEED": "0", "NO_COLOR": "1", "TERM": "dumb"}
+        # _TYPER_STANDARD_TRACEBACK: typer's rich traceback pretty-prints every frame's locals (22 s and 6 MB of stderr for one crash
+        # on the sink document); the standard traceback shows the same exception in under a second
+        env = {**os.environ, "PYTHONPATH": str(REPO), "PYTHONHASHSEED": "0", "NO_COLOR": "1", "TERM": "dumb", "_TYPER_STANDARD_TRACEBACK": "1"}
         t = time.time()
         try:
             r = subprocess.run(cmd, capture_output=True, text=True, timeout=limit, env=env, cwd=str(root))
@@ -484,6 +488,7 @@ def run(run, tier, replay=None):
         "the observation wrappers of harness/lib/c06_worker.py (pass-through monkeypatches of _get_document, GeneratorData.from_dict, EndpointCollection.from_data, Project.build, the three retry loops and their per-item functions, _resolve_reference)",
         "pydantic / ruamel / json / jinja2 are not modelled: their exceptions are only reached by the exploration",
         "hang = no answer within %d s wall clock" % int(LIMIT),
+        "CLI subprocesses run with _TYPER_STANDARD_TRACEBACK=1 (typer's rich traceback needs > 20 s to pretty-print the locals of one crash on a medium document; the exception shown is the same)",
     ]
     t_start = time.time()
 
